@@ -7,7 +7,7 @@
    them and is evaluated by the contract monitor on every case of every run. *)
 From Coq.Strings Require Import Byte.
 From EsVerif.Common Require Import Base Bytes.
-From EsVerif.C04 Require Import Gen TextModel Spec DecProofs ScanProofs WriteProofs RoundTrip CheckProofs FmtModel.
+From EsVerif.C04 Require Import Gen TextModel Spec DecProofs ScanProofs WriteProofs RoundTrip CheckProofs FmtModel Exec ExecProofs.
 
 (* ---- integers: printf %d / scanf %d and the memory image are inverse to each other *)
 Theorem C04_dec_parse_roundtrip : forall z, parse_dec (dec z) = z.
@@ -128,6 +128,25 @@ Theorem C04_checkers_sound :
 Proof.
   split; [exact roundtrip_check_sound|]. split; [exact header_check_sound|exact fval_ok_b_sound].
 Qed.
+
+(* ---- the verdict terms of the correspondence run evaluate exactly the models above (the tabulated printf/strtod
+   values are F_model / P_model), and verdict 0 on an in-scope case establishes the property for the
+   implementation's output, the equality of the file text with the model's, H_num, and non-membership of the class *)
+Theorem C04_exec_models : forall t d,
+  m_sfile2 d t = m_sfile_gen F_model P_model d t
+  /\ m_recfile2 d t = m_recfile_gen F_model P_model d t
+  /\ fcontract_b (F_tab (ftab t)) (P_tab (ptab (ftab t))) t = fcontract_b F_model P_model t.
+Proof. exact exec_models. Qed.
+
+Theorem C04_verdict0_sfile : forall d t text h out, in_scope d t = true -> v_sfile2 d t text h out = 0 ->
+  text = write_text F_model d t /\ roundtrip_ok t out /\ header_ok d t h
+  /\ fcontract F_model P_model t /\ kf_leading_ws_after_numeric d t = false.
+Proof. exact verdict0_sfile. Qed.
+
+Theorem C04_verdict0_recfile : forall d t text out, in_scope d t = true -> v_recfile2 d t text out = 0 ->
+  text = write_text F_model d t /\ roundtrip_ok t out
+  /\ fcontract F_model P_model t /\ kf_leading_ws_after_numeric d t = false.
+Proof. exact verdict0_recfile. Qed.
 
 (* ---- non-vacuity: a table with a blank-leading string BEFORE the numeric cell in white-space mode, and the
    same with ',' and no leading blank, meet the hypotheses; the conclusion computes *)
